@@ -599,6 +599,8 @@ package meta
 //@ prop C15
 //@ func (*MeasurementInfo).unmarshal
 //@   trusted_assigns msti
+// (C16 as well: a restored span that moves to year 1 overlaps the older groups and breaks the sort order)
+//@ prop C15 C16
 //@ func UnmarshalTime
 //@   ensures (v == 0 ==> result == TIME_ZERO) && (v != 0 ==> result == v)
 //@   assigns nothing
@@ -630,6 +632,7 @@ package meta
 //@     requires [start_restored] val == st0
 //@   store IndexGroupInfo.EndTime
 //@     requires [end_restored] val == en0
+//@ prop C15
 //@ func (*SubscriptionInfo).unmarshal
 //@   trusted_assigns si
 //@ func (*DownSamplePolicyInfo).Unmarshal
